@@ -4,9 +4,9 @@
    This file contains only statements, each closed by [exact] (or by complete
    evaluation for the obligations over the regenerated tables). *)
 From Coq Require Import ZArith List Bool String.
-From BV Require Import Gen.C20Consts Gen.C20AgSkeleton.
-From BV Require Import Model.Rfcomm Model.RfcommMux Model.RfcommSm Model.RfcommSm2 Model.HfpSlc Model.AtSkeleton.
-From BV Require Import Proofs.Rfcomm Proofs.RfcommMux Proofs.RfcommSm Proofs.RfcommSm2 Proofs.HfpSlc Proofs.AtSkeleton.
+From BV Require Import Gen.C20Consts Gen.C20AgSkeleton Gen.C20MuxEff Gen.C20DataPath.
+From BV Require Import Model.Rfcomm Model.RfcommMux Model.RfcommSm Model.RfcommSm2 Model.RfcommEff Model.RfcommRxQueue Model.HfpSlc Model.AtSkeleton.
+From BV Require Import Proofs.Rfcomm Proofs.RfcommMux Proofs.RfcommSm Proofs.RfcommSm2 Proofs.RfcommEff Proofs.RfcommSrc Proofs.RfcommRxQueue Proofs.HfpSlc Proofs.AtSkeleton.
 Import ListNotations.
 Close Scope string_scope.
 Open Scope list_scope.
@@ -176,6 +176,114 @@ Theorem C20_seeded_unstick_refuted :
 Proof. exact seeded_unstick_refuted. Qed.
 Print Assumptions C20_seeded_unstick_refuted.
 
+(* known finding D20j: the environment assumption "only the initiator disconnects the
+   multiplexer" is needed *)
+Theorem C20_responder_muxdisc_refuted :
+  let s := sm2_runx sm2_init d20j_witness in
+  quiescent2 s = true /\ agree2 s = false /\
+  e_pend (t_a s) = Some 0%nat /\ slot (t_a s) 0 = None /\ slot (t_b s) 0 = Some DConnecting.
+Proof. exact responder_muxdisc_refuted. Qed.
+Print Assumptions C20_responder_muxdisc_refuted.
+
+(* ---------- the models are what the source does (re-checked on every run) ----------
+   Gen/C20MuxEff.v is compiled from the source of the Multiplexer / DLC frame handlers and
+   local operations; interpreting it gives, for EVERY role, multiplexer state, DLC table
+   entry, other entry, pending open and frame, exactly Model/RfcommSm2.v's transition:
+   new states, frames sent (MSC frames apart), open_result resolution *)
+Theorem C20_mux_handlers_match_source : all_frame_cases_ok = true.
+Proof. exact frame_cases_match_source. Qed.
+Print Assumptions C20_mux_handlers_match_source.
+
+Theorem C20_mux_operations_match_source : all_op_cases_ok = true.
+Proof. exact op_cases_match_source. Qed.
+Print Assumptions C20_mux_operations_match_source.
+
+(* MSC frames, which the set-up / teardown models leave out, change no state *)
+Theorem C20_msc_frames_harmless : all_msc_cases_ok = true.
+Proof. exact msc_cases_harmless. Qed.
+Print Assumptions C20_msc_frames_harmless.
+
+(* Gen/C20DataPath.v is compiled from the source of DLC.rx_credits_needed / process_tx /
+   on_uih_frame / write; for ALL inputs it is Model/Rfcomm.v *)
+Theorem C20_needed_matches_source : forall d,
+  src_needed (p_max_credits P) (p_threshold P) (d_rx_credits d) = needed P d.
+Proof. intros d. exact (src_needed_ok P d). Qed.
+Print Assumptions C20_needed_matches_source.
+
+Theorem C20_process_tx_matches_source : forall d need drained,
+  match ptx_iter d need with
+  | None => src_ptx_cond (d_tx_credits d) need (d_tx_buf d) = false
+  | Some (d', fr) =>
+      src_ptx_cond (d_tx_credits d) need (d_tx_buf d) = true /\
+      src_ptx_body (d_mtu d) (d_tx_credits d) (d_rx_credits d) need (d_tx_buf d) drained =
+        (d_tx_credits d', d_rx_credits d', d_tx_buf d', 0, [fr],
+         if is_nil (d_tx_buf d') then true else drained) /\
+      d_mtu d' = d_mtu d
+  end.
+Proof. exact src_ptx_iter_ok. Qed.
+Print Assumptions C20_process_tx_matches_source.
+
+Theorem C20_on_uih_matches_source : forall d fr q,
+  dlc_on_uih P d fr =
+  let '(tx1, rx1, q', delivered) :=
+    src_on_uih (f_pf fr) (f_info fr) (d_tx_credits d) (d_rx_credits d) true q in
+  let '(d2, frs, ok) := process_tx P (mkDlc (d_mtu d) tx1 rx1 (d_tx_buf d)) in
+  (d2, frs, delivered, ok).
+Proof. intros d fr q. exact (src_on_uih_ok P d fr q). Qed.
+Print Assumptions C20_on_uih_matches_source.
+
+Theorem C20_write_matches_source : forall d data,
+  dlc_write P d data =
+  process_tx P (mkDlc (d_mtu d) (d_tx_credits d) (d_rx_credits d) (fst (src_write (d_tx_buf d) data true))).
+Proof. intros d data. exact (src_write_model P d data). Qed.
+Print Assumptions C20_write_matches_source.
+
+(* fix D20i: "drained is set iff nothing is buffered" is kept by write and by every
+   iteration of the transmit loop *)
+Theorem C20_drained_tracks_buffer : forall buf data drained,
+  drained = is_nil buf -> snd (src_write buf data drained) = is_nil (buf ++ data).
+Proof. exact drained_inv_write. Qed.
+Print Assumptions C20_drained_tracks_buffer.
+
+Theorem C20_drained_tracks_buffer_loop : forall d need drained d' fr,
+  ptx_iter d need = Some (d', fr) -> drained = is_nil (d_tx_buf d) ->
+  let '(_, _, buf', _, _, dr') :=
+    src_ptx_body (d_mtu d) (d_tx_credits d) (d_rx_credits d) need (d_tx_buf d) drained in
+  dr' = is_nil buf'.
+Proof. exact drained_inv_iter. Qed.
+Print Assumptions C20_drained_tracks_buffer_loop.
+
+(* ---------- a sink that is set late ----------
+   data that arrives before a sink is set waits in a bounded queue: the stream handed to
+   the sink is exact as long as at most DEFAULT_RX_QUEUE_SIZE data frames arrived before;
+   with one frame more the oldest data is lost (known finding D20h) *)
+Theorem C20_late_sink_exact : forall before after,
+  Z.of_nat (List.length before) <= rx_queue_size ->
+  q_out (rxq_recv rx_queue_size (rxq_set_sink (rxq_recv rx_queue_size rxq_init before)) after)
+  = List.concat before ++ List.concat after.
+Proof. exact (late_sink_exact rx_queue_size). Qed.
+Print Assumptions C20_late_sink_exact.
+
+Theorem C20_late_sink_overflow_refuted :
+  q_out (rxq_set_sink (rxq_recv 32 rxq_init (numbered 33))) = List.concat (tl (numbered 33))
+  /\ q_out (rxq_set_sink (rxq_recv 32 rxq_init (numbered 33))) <> List.concat (numbered 33).
+Proof. exact late_sink_overflow_refuted. Qed.
+Print Assumptions C20_late_sink_overflow_refuted.
+
+Theorem C20_rx_queue_size_is_32 : rx_queue_size = 32.
+Proof. vm_compute. reflexivity. Qed.
+Print Assumptions C20_rx_queue_size_is_32.
+
+(* the no-sink branch of on_uih_frame is that queue, with the same ledger updates *)
+Theorem C20_on_uih_nosink_matches_source : forall pf info tx rx q,
+  let '(tx1, rx1, q', delivered) := src_on_uih pf info tx rx false q in
+  let '(tx2, rx2, _, _) := src_on_uih pf info tx rx true q in
+  tx1 = tx2 /\ rx1 = rx2 /\ delivered = [] /\
+  q' = (let data := if pf then tl info else info in
+        if is_nil data then q else dq_append rx_queue_size q data).
+Proof. exact src_on_uih_nosink. Qed.
+Print Assumptions C20_on_uih_nosink_matches_source.
+
 (* ---------- HFP service-level connection ----------
    for EVERY HF feature mask, AG feature mask, HF indicator list, codec list, call-hold
    set, set of AG-supported / AG-disabled HF indicators, and every non-empty list of AG
@@ -211,6 +319,17 @@ Theorem C20_slc_ag_indicators : forall (C : ag_cfg),
   map hi_index (expected_inds 0 (ac_indicators C)) = zrange 0 (List.length (ac_indicators C)).
 Proof. intros C H. exact (expected_inds_spec (ac_indicators C) 0 (wf_cfg_inds C H)). Qed.
 Print Assumptions C20_slc_ag_indicators.
+
+(* after the SLC: any sequence of AG indicator updates (+CIEV) and codec proposals (+BCS)
+   leaves the HF's copy of the AG indicator values equal to the AG's, and the same
+   active codec on both ends *)
+Theorem C20_live_indicators_and_codec_agree : forall (H : hf_cfg) (C : ag_cfg),
+  wf_cfg_b C = true ->
+  forall ops, exists s,
+    live_run H C ops = Some s /\
+    lv_hf_status s = lv_ag_status s /\ lv_hf_codec s = lv_ag_codec s.
+Proof. exact live_agree. Qed.
+Print Assumptions C20_live_indicators_and_codec_agree.
 
 (* ---------- AT final result codes (regenerated skeletons) ---------- *)
 (* re-checked on every run: for every handler of AgProtocol, every path through the
